@@ -7,6 +7,7 @@ import ast
 from types import SimpleNamespace
 
 import sem
+from common import exact_eq
 from props import srcgen
 
 HEADER = '''import math
@@ -22,6 +23,13 @@ G_LIST = [1, 2]
 G_DICT = {"a": 1}
 G_OBJ = object()
 G_TUP = (1, 2)
+G_ONE_F = 1.0
+G_TRUE = True
+G_ONE = 1
+G_FALSE = False
+G_ZERO_F = 0.0
+G_NZERO = -0.0
+G_ZERO = 0
 j = 7
 q = 11
 e2 = 100
@@ -81,6 +89,13 @@ CASES = [
     ("lambda e: e.jets.Where(lambda j: j.pt > G_INT - 4).Count()", "ok"),
     ("lambda e: (lambda a: a + G_INT)(e.x)", "ok"),
     ("lambda e: e.x + undefined_name", "unbound"),
+    # values that compare equal but are different values (bool / int / float, signed zero),
+    # captured one after the other in the same process: each keeps its own type and sign
+    ("lambda e: (e.x, G_ONE_F)", "ok"), ("lambda e: (e.x, G_TRUE)", "ok"), ("lambda e: (e.x, G_ONE)", "ok"),
+    ("lambda e: (e.x, G_FALSE)", "ok"), ("lambda e: (e.x, G_ZERO_F)", "ok"),
+    ("lambda e: (e.x, G_NZERO)", "ok"), ("lambda e: (e.x, G_ZERO)", "ok"),
+    ("lambda e: (G_ZERO_F, G_NZERO, G_FALSE, G_ZERO, G_TRUE, G_ONE_F, G_ONE, e.x)", "ok"),
+    ("lambda e: e.jets.Select(lambda v1: (v1.pt * G_ONE, G_TRUE, G_ONE_F))", "ok"),
     # non transportable
     ("lambda e: e.x in G_LIST", "refuse"), ("lambda e: (e.x, G_OBJ)", "refuse"),
     ("lambda e: G_DICT", "refuse"), ("lambda e: (e.x, G_TUP)", "refuse"),
@@ -317,7 +332,7 @@ def run(t):
                 continue
             got = sem.run(ast.Call(emitted, [ast.Name("d0", ast.Load())], []), {"d0": d})
             want = ("ok", sem.force(nat[1]))
-            if got != want:
+            if got != want or not exact_eq(got, want):
                 t.violation("operators:ensures sem(emitted lambda) == callable(environment at the call)",
                             "the query computes something else than the lambda did when it was passed",
                             lam, want, f"{got} via {ast.unparse(emitted)}", rp)
